@@ -264,6 +264,36 @@ def surface_prefix_with_group_number(v: List[int]) -> bool:
         return _agree(sp, dict(ec), q, True, mol) and sp.surface_group == (int(grp) if grp else 0) and sp.name == name
 
 
+ONLY_ELEMS = ["H", "C", "O", "M", "X", "g"]
+ONLY_NAMES = [("MH", {"M": 1, "H": 1}, 0), ("M+", {"M": 1}, 1), ("XH2", {"X": 1, "H": 2}, 0), ("gC", {"g": 1, "C": 1}, 0), ("CO", {"C": 1, "O": 1}, 0), ("M", {"M": 1}, 0), ("Mg", {"M": 1, "g": 1}, 0), ("HX-", {"H": 1, "X": 1}, -1)]
+ONLY_BAD = ["oH2", "pH2", "CRP", "H2*", "cC3H2", "mH", "PHOTON", "oM"]
+
+
+def user_elements_with_empty_pseudo_list(v: List[int]) -> bool:
+    """
+    pre: len(v) == 2 and all(0 <= x < 8 for x in v)
+    post: _ == True
+    """
+    # an element list given by the user with an explicitly empty pseudo-element list: nothing is a label or a pseudo
+    # element, symbols named like the built-in ones (M, X, g) are ordinary elements, labelled names are rejected
+    a, b = prelude.concrete(v)
+    with prelude.NoTracing():
+        Species.reset()
+        Species.set_known_elements(list(ONLY_ELEMS))
+        Species.set_known_pseudoelements([])
+        name, ec, q = ONLY_NAMES[a]
+        sp = Species(name)
+        if dict(sp.element_count) != ec or sp.charge != q or bool(sp.is_atom) != (len(ec) == 1 and sum(ec.values()) == 1 and q == 0):
+            return False
+        if list(Species.known_pseudoelements()) != [] or list(Species.known_elements()) != ONLY_ELEMS:
+            return False
+        try:
+            Species(ONLY_BAD[b])
+        except Exception:
+            return True
+        return False
+
+
 BAD = ["H2x", "Hx", "xH", "H?", "2H", "H2O!", "C_2", "h2", "He 2", "Q", "H2+o", "H.2", "H-2", "CO@", "Zz"]
 
 
